@@ -161,7 +161,6 @@ func roleArgOfCall(call *ssa.Call, callee *ssa.Function) ssa.Value {
 	return nil
 }
 
-
 // roleCondValue: cond is a boolean function of the role parameter alone; returns the value of the role for
 // which cond is true.
 func roleCondValue(cond ssa.Value, rp *ssa.Parameter, depth int) (bool, bool) {
